@@ -6,6 +6,7 @@ From HV Require Import Authz.IdentityModel.
 Local Ltac neq_split :=
   repeat match goal with
          | H : (_ || _)%bool = true |- _ => apply orb_true_iff in H; destruct H
+         | H : (_ && _)%bool = true |- _ => apply andb_true_iff in H; destruct H
          | H : N.eqb _ _ = true |- _ => apply N.eqb_eq in H; subst
          end.
 
@@ -72,9 +73,34 @@ Proof.
   apply negb_true_iff, N.eqb_neq; congruence.
 Qed.
 
+(** createValidator moves the signer's coins into a self-delegation and no grant can cover it:
+    it is accepted only when the signer calls the precompile itself *)
+Lemma create_validator_only_by_signer :
+  forall o c named, accepts_identity SCreateValidator o c named = true -> c = o /\ named = o.
+Proof.
+  intros o c named H. simpl in H. apply andb_true_iff in H as [H1 H2].
+  apply N.eqb_eq in H1, H2. subst. auto.
+Qed.
+
+(** the second sentence of the property at full strength, over every method that spends the named account's
+    funds or stake (the four staking spends, createValidator, the ICS-20 transfer): an accepted call by a
+    caller that is not the signer, naming the signer, consults a grant signer -> caller *)
+Definition spends_named (m : method) : bool :=
+  (is_stake_spend m || is_ics_spend m || match m with SCreateValidator => true | _ => false end)%bool.
+Lemma contract_spends_signer_funds_only_with_grant :
+  forall m o c named, spends_named m = true -> accepts_identity m o c named = true -> c <> o ->
+    needs_grant m o c named = true /\ grant_parties m o c named = (o, c).
+Proof.
+  intros m o c named Hm Ha Hc.
+  assert (Hn : N.eqb c o = false) by (apply N.eqb_neq; exact Hc).
+  destruct m; simpl in *; try discriminate; rewrite ?Hn in *; simpl in *; auto.
+  rewrite andb_false_r in Ha. discriminate.
+Qed.
+
 (** non-vacuity: each decision is taken both ways *)
 Example accepts_ex : accepts_identity SDelegate 0 2 2 = true /\ accepts_identity SDelegate 0 2 0 = true /\
                      accepts_identity SDelegate 0 2 1 = false /\ accepts_identity SCreateValidator 0 2 2 = false /\
+                     accepts_identity SCreateValidator 0 2 0 = false /\ accepts_identity SCreateValidator 0 0 0 = true /\
                      needs_grant SDelegate 0 2 2 = true /\ needs_grant SDelegate 0 0 0 = false /\
                      needs_grant DSetWithdrawAddress 0 2 0 = false.
 Proof. repeat split. Qed.
